@@ -1,7 +1,7 @@
 """C19 check configuration."""
 PROP = {
         "props_files": ["Props/C19.v"],
-        "jobs": [{"component": "rtc_cancel", "comp_num": 19, "quick": 1200, "thorough": 40000, "timeout": 3000}],
+        "jobs": [{"component": "rtc_cancel", "comp_num": 19, "quick": 1200, "thorough": 40000, "timeout": 6000}],
         "design_ref": "DESIGN.md section 5, C19; section 6 F6",
         "level_text": "Theorems (Coq, closed under the global context) on the same Gallina transcription as C12 (Rtc/Server.v: generated "
                       "client, five serve loops with spawn modes, dispatch with the biased select on closed(), #[no_cancel], send_reply, "
